@@ -86,7 +86,7 @@ class ADWINAccuracy(ADWIN):
         # This class is here to avoid asking the user to provide such a direct
         # function of (y_true, y_pred) in the X argument, which is unintuitive.
         _, y_true, y_pred = super()._validate_input(None, y_true, y_pred)
-        new_value = int(y_true == y_pred)
         # the arrays should have a single element after validation.
         y_true, y_pred = y_true[0], y_pred[0]
+        new_value = int(y_true == y_pred)
         super().update(new_value, y_true=None, y_pred=None)
